@@ -3,7 +3,7 @@ from __future__ import annotations
 
 import typing as t
 
-from vf.checks import sess
+from vf.checks import sess, tlalc
 from vf.engine import evid
 
 PROP = "C09"
@@ -32,6 +32,8 @@ def run(ctx: evid.Ctx) -> None:
         ctx.add("transitions", steps)
         for (p, k), e in viols.items():
             ctx.violation(k, e["what"], {"role": role, "K": 10**9, "history": [list(x) for x in e["history"]]}, e["count"])
+    # the TLA+ model of the documented life cycle: TLC checks the clauses on the model, the product search binds it to the code
+    tlalc.check(ctx, PROP, ROLES, 3 if ctx.tier == "thorough" else 2)
     ctx.counters["evaluations"] = ctx.counters.get("transitions", 0)
     ctx.rule = (
         "explicit-state BFS to a fixpoint over one real session; a state is (structural freeze of the session object, "
@@ -43,9 +45,14 @@ def run(ctx: evid.Ctx) -> None:
     ctx.assumptions = [
         "deliveries are whole PDUs here (chunking is C02's subject); the outgoing buffer is drained after every event (C12 keeps it)",
         "an edge violating a monitor of this property is not expanded unless the violation is a listed known finding",
+        "tla/Lifecycle.tla is checked by TLC (17 action properties + TypeOK) and bound to the code by exploring the product of its dumped state graph with the real objects: "
+        "every model edge must be exercised and every real step must equal the model's edge (acceptance, error class, state, message emitted and its id, message attached to the error); "
+        "the model leaves out what the properties leave open (a non-search response kind for a search id; more than K operations)",
         "beyond the exhaustive bound, a fixed set of long structured histories (4/9/33 operations in flight, 3 bind cycles, ids up to 2^64) is run through the same monitors",
     ]
 
 
 def replay(case: t.Dict[str, t.Any], key: t.Optional[str] = None) -> t.Tuple[bool, str]:
+    if case.get("tla"):
+        return tlalc.replay(case, PROP, key)
     return sess.replay_history(case["role"], case["history"], case["K"], PROP, key, case.get("id_base", 0))
